@@ -293,6 +293,11 @@ func c18Sample(r *fw.Run) []*Prog {
 	for n := 0; n < 8*scale; n++ {
 		add("C08", c08Seq(n, rng))
 	}
+	// declarations and statements that compile to no code of their own (blank variables, constants, types, labels,
+	// empty statements): the option-dependent statement wrappers must cope with them
+	for n := 0; n < 6*scale; n++ {
+		add("NOP", c18NoCode(n, rng))
+	}
 	// programs that record a few events and then END in a panic escaping P (what OptTrapPanic is about):
 	// user values of assorted types and run-time errors, raised at call depth 0-3, directly, inside a closure,
 	// inside a deferred function, or re-raised after a recover
@@ -753,4 +758,36 @@ func c18ReplayFile(r *fw.Run, path string) {
 	if ok, diff := c18Compare(want, b, tref, got, cb); !ok {
 		r.Violation("replay", c18Replay{p, cb.Name, ref[p.ID], b, got, diff}, diff)
 	}
+}
+
+// c18NoCode: a program made of declarations and statements that compile to nothing, in seeded order, at package
+// level and inside a function, with a few observable statements in between.
+func c18NoCode(n int, rng *rand.Rand) *Prog {
+	top := []string{"var _ = \"abc\"", "var _ []int = nil", "var _ = 1.5", "var _ = 42", "var _ map[string]int", "const _ = 7", "type _ int",
+		"var _ = struct{}{}", "var _, _ = 1, \"x\"", "var _ interface{} = nil", "var _ func()", "var _ = [2]string{}", "var _ = 'r'", "var _ = 2i", "var _ bool"}
+	inner := []string{"var _ = \"abc\"", "var _ []int = nil", "_ = 1.5", "const c%d = 1", "type t%d int", ";", "{}", "var _ = 'r'", "_ = nil == nil", "var _ interface{} = nil",
+		"_ = \"s\" + \"t\"", "var _ [0]int", "_, _ = 1, 2", "var _ map[string]int", "var _ func()", "var _ *int"}
+	var b strings.Builder
+	nt := 2 + rng.Intn(6)
+	for i := 0; i < nt; i++ {
+		b.WriteString(top[rng.Intn(len(top))] + "\n")
+	}
+	b.WriteString("var §g = \"hello\"\n")
+	for i := 0; i < 2; i++ {
+		b.WriteString(top[rng.Intn(len(top))] + "\n")
+	}
+	b.WriteString("func §P() {\n")
+	ni := 3 + rng.Intn(8)
+	for i := 0; i < ni; i++ {
+		st := inner[rng.Intn(len(inner))]
+		if strings.Contains(st, "%d") {
+			st = fmt.Sprintf(st, i)
+		}
+		b.WriteString(st + "\n")
+		if rng.Intn(3) == 0 {
+			fmt.Fprintf(&b, "rec(%d, §g, %d)\n", i+1, rng.Intn(100))
+		}
+	}
+	b.WriteString("rec(99, §g + \" world\")\n}\n")
+	return &Prog{Src: b.String(), Cell: "declarations-without-code"}
 }
